@@ -172,6 +172,7 @@ def _segment(args) -> List[Dict[str, Any]]:
         del LOG[:]
         o: Dict[str, Any] = {}
         try:
+            common.arm(60)
             if op["op"] == "register":
                 c = user[op["arg"]]
                 reg = st.codec_registry()
@@ -208,6 +209,7 @@ def _segment(args) -> List[Dict[str, Any]]:
         except BaseException as e:
             o["ans"] = ["EXC", type(e).__name__, str(e)[:200]]
         out.append(o)
+    common.disarm()
     return out
 
 
